@@ -22,6 +22,12 @@ let rec blocks l = match l with [] -> [] | _ ->
   let (b, r) = take 16 l [] in b :: blocks r
 
 let spec = ref false
+let src = ref false      (* "src": run the functions translated from /repo's sources (coq/Gen/Src_*.v) under the MiniC semantics *)
+let char_of_ascii (Ascii (b0, b1, b2, b3, b4, b5, b6, b7)) =
+  let v b k = if b then 1 lsl k else 0 in
+  Char.chr (v b0 0 + v b1 1 + v b2 2 + v b3 3 + v b4 4 + v b5 5 + v b6 6 + v b7 7)
+let rec coqstr (s : Model.string) = match s with EmptyString -> "" | String (a, r) -> String.make 1 (char_of_ascii a) ^ coqstr r
+let sres_bytes = function SOk b -> hex b | SErr w -> "ERR " ^ coqstr w
 let envint name d = try int_of_string (Sys.getenv name) with _ -> d
 let buf () = nat_of_int (envint "WV_BUF" 4)
 let hbuf () = nat_of_int (envint "WV_HBUF" 4)
@@ -33,8 +39,79 @@ let res_bytes = function
 
 let alg_of i = match Model.get_hasher (n_of_int i) with Some a -> a | None -> failwith "alg"
 
-let handle (w : string list) : string =
+let rec z_of_int i = if i = 0 then Z0 else if i > 0 then Zpos (pos_of_int i) else Zneg (pos_of_int (-i))
+let int_of_z = function Z0 -> 0 | Zpos p -> int_of_pos p | Zneg p -> - (int_of_pos p)
+
+(* the successive load_buffer calls over an input, each followed (as the pipeline does after the worker has consumed
+   every block) by export_buffer: "state:total:final:data>exported;..." *)
+let loads_src c pad inp =
+  let b = Buffer.create 1024 in
+  let rec go s k =
+    if k > 100000 then Buffer.add_string b "LOOP" else
+    match Model.src_load pad s with
+    | SErr w -> Buffer.add_string b ("ERR " ^ coqstr w)
+    | SOk (((((ls, total), _tail), isfinal), data), s') ->
+        let ls = int_of_z ls in
+        Buffer.add_string b (Printf.sprintf "%d:%d:%d:%s" ls (int_of_z total) (int_of_z isfinal) (hex data));
+        if ls <> 2 then begin
+          (match Model.src_export pad total s' with
+           | SOk o -> Buffer.add_string b (">" ^ hex o)
+           | SErr w -> Buffer.add_string b (">ERR " ^ coqstr w))
+        end;
+        Buffer.add_char b ';';
+        if ls = 0 then go s' (k + 1) in
+  go (Model.iob_state c inp) 0;
+  Buffer.contents b
+let loads_model c pad inp =
+  let b = Buffer.create 1024 in
+  let ls = Model.loads_of c pad inp in
+  List.iter (fun l ->
+    let fin = l.Model.ld_final in
+    Buffer.add_string b (Printf.sprintf "%d:%d:%d:%s" (if fin then 1 else 0) (int_of_nat l.Model.ld_total) (if fin then 1 else 0) (hex l.Model.ld_data));
+    (match Model.export c pad { Model.ld_data = []; Model.ld_total = l.Model.ld_total; Model.ld_final = fin } l.Model.ld_data with
+     | Ok o -> Buffer.add_string b (">" ^ hex o)
+     | Crash w -> Buffer.add_string b (">CRASH " ^ string_of_int (int_of_nat w))
+     | _ -> Buffer.add_string b ">?");
+    Buffer.add_char b ';') ls;
+  Buffer.contents b
+
+let handle_src (w : Stdlib.String.t list) : Stdlib.String.t =
   match w with
+  | ["aes"; d; k; b] -> sres_bytes (Model.src_aes (d = "e") (unhex k) (unhex b))
+  | [("mode" | "modes"); d; t; k; iv; data] ->
+      let iv16 = Model.firstn (nat_of_int 16) (unhex iv) in
+      (match Model.src_mode (d = "e") (n_of_int (int_of_string t)) (unhex k) iv16 (blocks (unhex data)) with
+       | SOk r -> hex (List.concat r)
+       | SErr w -> let w = coqstr w in if w = "NULL" then "NULL" else "ERR " ^ w)
+  | ["hstr"; a; data] -> sres_bytes (Model.src_hash_string (n_of_int (int_of_string a)) (unhex data))
+  | ["hfile"; hb; a; pre; data] ->
+      let pre = if pre = "-" then None else Some (unhex pre) in
+      sres_bytes (Model.src_hash_file (nat_of_int (int_of_string hb)) (n_of_int (int_of_string a)) pre (unhex data))
+  | ["b64e"; data] -> sres_bytes (Model.src_b64_encode (unhex data))
+  | ["b64d"; s] ->
+      let s = unhex s in
+      (* the C++ driver decodes into a buffer large enough for any text: 3 bytes per 4 symbols + slack *)
+      let cap = 3 * (List.length s / 4) + 8 in
+      (match Model.src_b64_decode (nat_of_int cap) s with
+       | SOk (ok, o) -> if ok then "OKBUF " ^ hex o else "FALSE"
+       | SErr w -> "ERR " ^ coqstr w)
+  | ["b64v"; s] -> (match Model.src_b64_valid (unhex s) with SOk b -> if b then "1" else "0" | SErr w -> "ERR " ^ coqstr w)
+  | ["key"; s] ->
+      let s = unhex s in
+      (match Model.src_b64_valid s with
+       | SOk false -> "REJECT"
+       | SOk true -> (match Model.src_b64_decode (nat_of_int 16) s with
+                      | SOk (true, o) -> "OK " ^ hex o
+                      | SOk (false, _) -> "BAD"
+                      | SErr w -> "OVERFLOW " ^ coqstr w)
+       | SErr w -> "ERR " ^ coqstr w)
+  | ["loads"; c; pad; inp] -> loads_src (nat_of_int (int_of_string c)) (pad = "1") (unhex inp)
+  | _ -> "?"
+
+let handle (w : Stdlib.String.t list) : Stdlib.String.t =
+  if !src then handle_src w else
+  match w with
+  | ["loads"; c; pad; inp] -> loads_model (nat_of_int (int_of_string c)) (pad = "1") (unhex inp)
   | ["aesprobe"; k; target; r] ->
       (* plaintext whose state entering MixColumns in round r (1..9) is `target` (FIPS-197 layout), by running the spec backwards *)
       let k = unhex k and t = unhex target and r = int_of_string r in
@@ -140,8 +217,6 @@ let handle (w : string list) : string =
              (if Model.terminal st then "TERMINAL" else "RUNNING") (int_of_nat (Model.enabled_count Model.tag_tr Model.tag_event (buf ()) pad st))
              (match Model.crashed st with None -> "-" | Some w -> string_of_int (int_of_nat w)) (hex out) (Buffer.contents b))
   | "cli" :: toks ->
-      let rec z_of_int i = if i = 0 then Z0 else if i > 0 then Zpos (pos_of_int i) else Zneg (pos_of_int (-i)) in
-      let int_of_z = function Z0 -> 0 | Zpos p -> int_of_pos p | Zneg p -> - (int_of_pos p) in
       let fk s = if s = "M" then FMissing else if s = "P" then FPlain else FWenc (nat_of_int (int_of_string (String.sub s 1 (String.length s - 1)))) in
       let tok s =
         match String.split_on_char ':' s with
@@ -162,6 +237,7 @@ let handle (w : string list) : string =
 
 let () =
   if Array.length Sys.argv > 1 && Sys.argv.(1) = "spec" then spec := true;
+  if Array.length Sys.argv > 1 && Sys.argv.(1) = "src" then src := true;
   try
     while true do
       let line = input_line stdin in
